@@ -7,6 +7,7 @@ import math
 from .engine import Judgement
 from .numcmp import close, fr, near_int
 from . import brokerlib as bl
+from . import recase as rc
 from .props.c10 import lo_knife
 from .props.c11 import ls_knife
 
@@ -55,7 +56,7 @@ def gen_prices(rng, assets, times, exact, data_start=None):
 
 
 def gen_session(rng, tier='quick', exact=None, alpha_kinds=('fixed', 'single', 'topn', 'smatrend'), fixed_only=False,
-                all_quoted=True, allow_dynamic=True, max_days=None, outside_universe=False):
+                all_quoted=True, allow_dynamic=True, max_days=None, outside_universe=False, collide=False):
     exact = (rng.random() < 0.7) if exact is None else exact
     nd = rng.randint(3, max_days or (45 if tier == 'quick' else 260))
     d0 = BASE + rng.randint(0, 300)
@@ -77,7 +78,7 @@ def gen_session(rng, tier='quick', exact=None, alpha_kinds=('fixed', 'single', '
     if rng.random() < 0.15:
         # a date-only end, or an end at another time of day (also earlier in the day than the start's time of day)
         end = (end // DAY) * DAY + rng.choice([0, 0, OPEN, CLOSE, 3600 * 9, OPEN - 1, CLOSE - 1])
-    n_assets = rng.randint(2, 4) if outside_universe else rng.randint(1, 4)
+    n_assets = rng.randint(2, 4) if outside_universe else (rng.randint(3, 4) if collide else rng.randint(1, 4))
     assets = ASSETS[:n_assets]
     long_only = rng.random() < 0.5
     kind = 'fixed' if (fixed_only or outside_universe) else rng.choice(alpha_kinds)
@@ -110,7 +111,7 @@ def gen_session(rng, tier='quick', exact=None, alpha_kinds=('fixed', 'single', '
             else:
                 e = None
             ents.append([a, e])
-        universe = ['dynamic', ents] + ([rng.choice(['nat', 'tz', 'nat+tz'])] if rng.random() < 0.45 else [])     # missing entries as None or as NaT
+        universe = ['dynamic', ents] + ([rng.choice(['nat', 'tz', 'nat+tz', 'pydt', 'tz+pydt'])] if rng.random() < 0.5 else [])     # missing entries as None or as NaT
     # alpha
     lookbacks = None
     if kind == 'fixed':
@@ -159,8 +160,13 @@ def gen_session(rng, tier='quick', exact=None, alpha_kinds=('fixed', 'single', '
     rows = gen_prices(rng, assets, times, exact, data_start)
     cfg = {'start': start, 'end': end, 'universe': universe, 'alpha': alpha, 'cash': cash, 'rebal': rebal,
            'long_only': long_only, 'param': param, 'fee': fee, 'burn': burn, 'lookbacks': lookbacks}
-    return {'cfg': cfg, 'market': {'kind': 'table', 'rows': rows}, 'exact': exact, 'assets': assets,
+    case = {'cfg': cfg, 'market': {'kind': 'table', 'rows': rows}, 'exact': exact, 'assets': assets,
             'stream': kind + ':' + rebal[0] + (':exact' if exact else ':float')}
+    if collide or rng.random() < 0.1:
+        # symbols with lower-case letters; collide: two symbols that differ only in letter case
+        case = rc.recase(case, rc.mapping(rng, collide=collide))
+        case['stream'] += ':mixed-case-symbols'
+    return case
 
 
 def gen_timed_session(rng, tier, max_days=None):
